@@ -76,12 +76,32 @@ def build_harness(bins=None):
 # TLC
 
 
+_WORKDIRS = []
+
+
 def workdir(name):
     d = os.path.join(WORK, name)
     shutil.rmtree(d, ignore_errors=True)
     os.makedirs(d, exist_ok=True)
     os.makedirs(os.path.join(d, "tmp"), exist_ok=True)
+    _WORKDIRS.append(d)
     return d
+
+
+def prune_workdirs(limit=8 << 20):
+    """Disk is limited and a thorough tier writes tens of GB of cases / traces / TLC output: after a run
+    without violations keep only the small files (configs, summaries); VERIF_KEEP_WORK=1 keeps all."""
+    if os.environ.get("VERIF_KEEP_WORK"):
+        return
+    for d in _WORKDIRS:
+        for root, _dirs, files in os.walk(d):
+            for f in files:
+                p = os.path.join(root, f)
+                try:
+                    if os.path.getsize(p) > limit:
+                        os.remove(p)
+                except OSError:
+                    pass
 
 
 def wrapper(wd, name, extends, defs, cfg_lines):
@@ -597,6 +617,8 @@ class Result:
         log(f"[{self.prop}] {self.tier} done in {wall:.1f}s: states={self.states} transitions={self.transitions} "
             f"traces={self.traces} evaluations={self.evaluations} nontrivial={len(self.nontrivial)} "
             f"violations={len(seen)} known={len(self.known_hits)}")
+        if rc == 0 and self.tier == "thorough":
+            prune_workdirs()
         return rc
 
 
